@@ -8,7 +8,10 @@ import random
 
 from spec import oracle as orc
 
+from . import rt
 from .common import Recorder
+
+SIDE = ["contracts.model_mark"]
 
 
 def configs(tier, rnd):
@@ -55,6 +58,19 @@ def run(tier, seed, findings):
 
     rec = Recorder("C14")
     rnd = random.Random(seed)
+    rt.load(SIDE)
+    fns = {k: rt.resolve(k)[3] for k in ("Mark.add_to_set", "Mark.remove_from_set", "Mark.is_in_set", "Mark.same_set", "NodeType.allowed_marks", "NodeType.allows_marks", "MarkType.excludes")}
+
+    def contract(key, args, call):
+        """the sidecar contract (the text tier P proves) evaluated natively on this input: ties
+        the specification functions to the independent oracle used below"""
+        try:
+            rt.check_call(key, fns[key], args, {})
+        except rt.ContractViolation as v:
+            rec.violation(f"contract:{key}:{v.kind}", f"{v.clause} {v.detail}"[:300], call)
+        except rt.PreconditionFailed:
+            pass
+
     cfgs = configs(tier, rnd)
     rnd.shuffle(cfgs)
     for spec in cfgs[: (150 if tier == "quick" else 1500)]:
@@ -93,6 +109,9 @@ def run(tier, seed, findings):
                 call = dict(call0, set=[key(x) for x in cur], mark=key(m))
                 rec.case(("add", orc.canon_json(call)), nontrivial=bool(cur), sample=call)
                 before = list(cur)
+                contract("Mark.add_to_set", [m, cur], call)
+                contract("Mark.remove_from_set", [m, cur], call)
+                contract("Mark.is_in_set", [m, cur], call)
                 try:
                     new = m.add_to_set(cur)
                 except Exception as e:  # noqa: BLE001
@@ -121,6 +140,8 @@ def run(tier, seed, findings):
                     seen[k3] = rem
                     todo.append(rem)
             # filtering for the parent type
+            contract("NodeType.allowed_marks", [pt, cur], dict(call0, set=[key(x) for x in cur]))
+            contract("NodeType.allows_marks", [pt, cur], dict(call0, set=[key(x) for x in cur]))
             got = pt.allowed_marks(cur)
             exp = [key(x) for x in cur if O.allows("paragraph", x.type.name)]
             if [key(x) for x in got] != exp:
@@ -130,6 +151,7 @@ def run(tier, seed, findings):
         sets = list(seen.values())
         for a in sets[:40]:
             for b in sets[:40]:
+                contract("Mark.same_set", [a, b], dict(call0, a=[key(x) for x in a], b=[key(x) for x in b]))
                 if Mark.same_set(a, b) != ([key(x) for x in a] == [key(x) for x in b]):
                     rec.violation("same-set", "", dict(call0, a=[key(x) for x in a], b=[key(x) for x in b]))
             # set_from sorts by rank
